@@ -6,7 +6,8 @@ from hypothesis import strategies as st
 from vk.core import Violation, Obs, Part, HarnessError
 
 ID = 'C09'
-RULE = ('Model-based, histories: generated sequences (1..60 steps) of public edit operations starting from the empty circuit - add cell, add fork, '
+RULE = ('Part subst (complete enumeration): every implementation of the pool (six bench texts, eight hand-wired ones) x every subset of connected instance inputs and outputs: structure valid before and after, implementation untouched, ports kept, connected output ports still driven, copy() valid. ' +
+        'Model-based, histories: generated sequences (1..60 steps) of public edit operations starting from the empty circuit - add cell, add fork, '
         'get_or_add_fork, add line with implicit pins, add line with explicit free pins, remove line, remove disconnected node, append/replace port, '
         'eliminate_1to1_forks, substitute(cell, implementation from a pool of generated shapes), copy(), pickle round trip (the history continues on '
         'the rebuilt object). Every operation is interpreted on the real Circuit and on a dictionary model; after every step: indices consecutive '
@@ -91,6 +92,30 @@ def handmade_impl4(variant):
     if variant == 1: l1.remove()
     if variant == 2: l2.remove()
     for n in (a, z, y, x):
+        c.io_nodes.append(n)
+    return c
+
+
+def handmade_impl5():
+    """hand-wired around a two-output primitive: a flip-flop whose outputs Q (pin 0) and QN (pin 1) drive the output ports q and qn directly"""
+    from kyupy.circuit import Circuit, Node, Line
+    c = Circuit('hand5')
+    a, q, qn = Node(c, 'a', 'input'), Node(c, 'q', 'output'), Node(c, 'qn', 'output')
+    ff = Node(c, 'ff', 'DFF')
+    Line(c, a, ff); Line(c, (ff, 0), q); Line(c, (ff, 1), qn)
+    for n in (a, q, qn):
+        c.io_nodes.append(n)
+    return c
+
+
+def handmade_impl6():
+    """hand-wired around a two-output cell that is not a state element (a half-adder core: pin 0 -> port s, pin 1 -> port co, no forks)"""
+    from kyupy.circuit import Circuit, Node, Line
+    c = Circuit('hand6')
+    a, b_, s_, co = Node(c, 'a', 'input'), Node(c, 'b', 'input'), Node(c, 's', 'output'), Node(c, 'co', 'output')
+    core = Node(c, 'core', 'HA')
+    Line(c, a, core); Line(c, b_, core); Line(c, (core, 0), s_); Line(c, (core, 1), co)
+    for n in (a, b_, s_, co):
         c.io_nodes.append(n)
     return c
 
@@ -270,7 +295,7 @@ class Interp:
     def impls(self):
         if self._impls is None:
             from kyupy import bench
-            self._impls = [bench.parse(t) for t in IMPLS] + [handmade_impl(), handmade_impl2(), handmade_impl3(), handmade_impl4(0), handmade_impl4(1), handmade_impl4(2)]
+            self._impls = [bench.parse(t) for t in IMPLS] + [handmade_impl(), handmade_impl2(), handmade_impl3(), handmade_impl4(0), handmade_impl4(1), handmade_impl4(2), handmade_impl5(), handmade_impl6()]
         return self._impls
 
     def rederive(self):
@@ -544,5 +569,55 @@ def machine(tier, record, fail):
     return GraphMachine
 
 
-PARTS = [Part('history', prop, strategy=cases, quick=(8, 250), thorough=(16, 4000)),
+def all_impls():
+    from kyupy import bench
+    return [bench.parse(t) for t in IMPLS] + [handmade_impl(), handmade_impl2(), handmade_impl3(), handmade_impl4(0), handmade_impl4(1),
+                                              handmade_impl4(2), handmade_impl5(), handmade_impl6()]
+
+
+def enum_subst(tier):
+    """every implementation of the pool x every subset of connected instance inputs and outputs (pins given explicitly, gaps below a connected pin)"""
+    for i, impl in enumerate(all_impls()):
+        n_in = len([n for n in impl.io_nodes if len(n.ins) == 0])
+        n_out = len(impl.io_nodes) - n_in
+        for im in range(1 << n_in):
+            for om in range(1 << n_out):
+                yield dict(impl=i, ins=im, outs=om)
+
+
+def prop_subst(case):
+    from kyupy.circuit import Circuit, Node, Line
+    impl = all_impls()[case['impl']]
+    before = canon_circuit(impl)
+    n_in = len([n for n in impl.io_nodes if len(n.ins) == 0])
+    n_out = len(impl.io_nodes) - n_in
+    c = Circuit('parent')
+    u = Node(c, 'u', 'MYCELL')
+    for k in range(n_in):
+        if (case['ins'] >> k) & 1:
+            p = Node(c, f'i{k}', 'input'); c.io_nodes.append(p)
+            Line(c, p, (u, k))
+    for k in range(n_out):
+        if (case['outs'] >> k) & 1:
+            o = Node(c, f'o{k}', 'output'); c.io_nodes.append(o)
+            Line(c, (u, k), o)
+    ports = [n.name for n in c.io_nodes]
+    nlines = len(c.lines)
+    structural(c, 'parent before substitute')
+    c.substitute(u, impl)
+    what = f'after substitute(u, impl {case["impl"]}) with inputs {case["ins"]:b} / outputs {case["outs"]:b} connected'
+    structural(c, what)
+    if canon_circuit(impl) != before:
+        raise Violation(f'{what}: the implementation circuit was modified')
+    if [n.name for n in c.io_nodes] != ports:
+        raise Violation(f'{what}: port list {[n.name for n in c.io_nodes]} != {ports}')
+    for n in c.io_nodes:                 # a connected port stays connected, unless the implementation does not use that input at all
+        if n.kind == 'output' and (len(n.ins) == 0 or n.ins[0] is None):
+            raise Violation(f'{what}: output port {n.name} lost its driver')
+    structural(c.copy(), what + ', copy()')
+    return Obs(case['outs'] not in (0, (1 << n_out) - 1) or case['ins'] != (1 << n_in) - 1, [f'impl{case["impl"]}'], checks=3)
+
+
+PARTS = [Part('subst', prop_subst, enumerate=enum_subst, quick=(2, 0), thorough=(2, 0)),
+         Part('history', prop, strategy=cases, quick=(8, 250), thorough=(16, 4000)),
          Part('machine', prop, machine=machine, quick=(4, 60), thorough=(8, 1500))]
